@@ -670,7 +670,38 @@ class Interp:
         out["items"] = top.items
         return out
 
-    def call_body(self, name, body, args):
+    def _subst_ty(self, ty):
+        """a type spelling with the generic parameters of the body being inlined (`T`, `Self`) replaced by what the call
+        that inlined it passed for them"""
+        if not ty or not getattr(self, "tsubst", None) or not self.tsubst[-1]:
+            return ty
+        m = self.tsubst[-1]
+        return re.sub(r"(?<![\w:])(Self|[A-Z]\w*)(?![\w:])", lambda mo: m.get(mo.group(0), mo.group(0)), ty)
+
+    def _resolve_trait_item(self, item, n):
+        """`Trait::item` reached through a generic parameter / `Self` of the body being inlined: the local impl item
+        `<Concrete as Trait>::item` selected by the current substitution (None if there is no such impl)."""
+        if not item or item.startswith("<") or not getattr(self, "tsubst", None):
+            return None
+        tr_path, _, leaf = item.rpartition("::")
+        if tr_path not in self.crate.trait_paths():
+            return None
+        ta = n.get("targs")
+        t0 = ta[0] if ta else ((n.get("recv") or {}).get("aty") or (n.get("recv") or {}).get("ty"))
+        if not t0:
+            return None
+        c = self._subst_ty(t0).lstrip("&").replace("mut ", "").strip()
+        c = re.sub(r"<.*$", "", c)
+        for k in self.crate.bodies:
+            if k.startswith("<" + c) and k.endswith(" as " + tr_path + ">::" + leaf):
+                return k
+        # an impl item that name canonicalisation presented under the reference's (inherent) name
+        for knew, kold in (getattr(self.crate, "aliases", None) or {}).items():
+            if knew.startswith("<" + c) and knew.endswith(" as " + tr_path + ">::" + leaf) and kold in self.crate.bodies:
+                return kold
+        return None
+
+    def call_body(self, name, body, args, node=None):
         if self.depth > 40:
             raise InterpError("inlining too deep at %s" % name)
         fr = {}
@@ -678,11 +709,19 @@ class Interp:
         self.ctx.append(("act", act))
         self.fn_stack.append(name)
         self.depth += 1
+        gen_, ta_ = body.get("generics"), (node or {}).get("targs")
+        if not hasattr(self, "tsubst"):
+            self.tsubst = []
+        if gen_ and ta_ and len(gen_) == len(ta_):
+            self.tsubst.append({g_: self._subst_ty(t_) for g_, t_ in zip(gen_, ta_) if not g_.startswith("'")})
+        else:
+            self.tsubst.append({})
         try:
             for p, a in zip(body.get("params", []), args):
                 self.bindpat(p, a, fr)
             v = self.ev(body["hir"], fr)
         finally:
+            self.tsubst.pop()
             self.depth -= 1
             self.fn_stack.pop()
             self.ctx.pop()
@@ -1031,6 +1070,10 @@ class Interp:
             dk = n.get("dk", "")
             if "Ctor" in dk and "Const" in dk:
                 return StructV(None, n.get("ctor_of") or n["def"], {}, node=n)
+            if "AssocConst" in dk and n.get("targs"):
+                ri_ = self._resolve_trait_item(n["def"], n)
+                if ri_ is not None:
+                    return Def(ri_, dk)
             d_ = Def(n["def"], dk)
             if "Ctor" in dk:
                 d_.ctor_of = n.get("ctor_of") or n["def"]      # a tuple-variant / tuple-struct constructor used as a function value
@@ -1791,6 +1834,10 @@ class Interp:
                     a0 = SnapV(a0, len(a0.ops))
                     args = [a0] + list(args[1:])
         # ---- local function: inline when it carries a writer / closure, or is a bool predicate ----
+        if not (inst and inst in self.crate.bodies):
+            ri_ = self._resolve_trait_item(callee, n)
+            if ri_ is not None:
+                inst = ri_
         tgt = self._local_target(inst, callee)
         if tgt is not None and tgt not in self.no_inline:
             body = self.crate.bodies[tgt]
@@ -1801,16 +1848,16 @@ class Interp:
             if carries or is_bool or tgt in self.inline_always:
                 if new_helper:
                     self.inlined.add(tgt)      # (events inside are attributed to its known caller)
-                return self.call_body(tgt, body, args)
+                return self.call_body(tgt, body, args, n)
             if self._trivial_accessor(tgt, body) and tgt not in self.fn_stack:
                 # `fn params(&self) -> &P { &self.params }`: the call is the field selection (the accessor's name stays
                 # visible as a transparent adaptor, so provenance rules still see it)
-                via_ = Via(last, self.call_body(tgt, body, args), tgt)
+                via_ = Via(last, self.call_body(tgt, body, args, n), tgt)
                 via_.node = n
                 return via_
             if new_helper:
                 self.inlined.add(tgt)
-                return Via("inlined", self.call_body(tgt, body, args), tgt)
+                return Via("inlined", self.call_body(tgt, body, args, n), tgt)
             return CallV(tgt, args, n, inst)
         if last == "collect" and len(args) == 1 and isinstance(a0, MutV) and getattr(a0, "unrolled", None):
             # the list is materialised: each kept element is a `push` onto the collection that is built
